@@ -218,6 +218,13 @@ class FramingCtx(object):
                 self.stats["gen:max_size_message(%d)" % len(big)] += 1
                 parts.append(big)
                 parts.append(rp.encode_keepalive())
+            if not parts and rng.chance(0.3):
+                # a frame whose length field exceeds 4096 and whose octets are ALL there (one segment, or cut inside
+                # the header): Bad Message Length whatever has arrived behind the header
+                L = rng.pick([4097, 4100, 4200, 5000])
+                parts.append(rp.encode_keepalive())
+                parts.append(rp.frame(rp.UPDATE, bytes(rng.randrange(256) for _ in range(L - 19)), length=L))
+                self.stats["gen:complete_oversized_frame"] += 1
             total = sum(len(x) for x in parts)
             target = rng.pick([4200, 5000, 9000])
             while total < target:
@@ -226,7 +233,7 @@ class FramingCtx(object):
                 total += len(m)
             stream = b"".join(parts)
             n = len(stream)
-            segs = [[], [n // 2], [n // 3, 2 * n // 3], list(range(1000, n, 1000)), list(range(64, n, 64))]
+            segs = [[], [n // 2], [n // 3, 2 * n // 3], list(range(1000, n, 1000)), list(range(64, n, 64)), [19 + 5], [19 + 18], [19 + 19]]
             for _ in range(3):
                 segs.append(sorted(rng.sample(range(1, n), rng.randrange(1, 6))))
             self.stats["gen:long_streams(>4096)"] += 1
